@@ -212,3 +212,152 @@ def c19_cases(run):
                                    f"unsplit: rc={base['rc']} messages={len(base['messages'])}", "responses differ under this segmentation"))
     run.stats_extra["c19_binary_runs"] = n_runs
     return [], violations
+
+
+# ---------------------------------------------------------------------------------------
+# C20: ordering, read-your-writes, isolation under load (binary level)
+# ---------------------------------------------------------------------------------------
+
+C20_URIS = ["file:///a.spl", "untitled:/a.spl", "file:///b.spl", "file:///dir/a.spl", "file:///%C3%A4.spl"]
+C20_TEXTS = [
+    "proc main() {\n}\n",
+    "type t = int;\nproc main() {\n    var i: t;\n    i := 1;\n}\n",
+    "// é😀\nproc f(ref a: int) {\n    a := a + 1;\n}\nproc main() {\n    var x: int;\n    f(x);\n}\n",
+    "",
+    "proc {\n",
+    "abc",
+]
+
+
+def _hex(s):
+    b = s.encode("utf-8")
+    return b.hex() if b else "-"
+
+
+def c20_history(rng, n):
+    toks = []
+    open_docs = {}
+    for _ in range(n):
+        u = rng.randrange(len(C20_URIS))
+        k = rng.randrange(10)
+        if k < 2 or (u not in open_docs and k < 5):
+            t = rng.choice(C20_TEXTS)
+            open_docs[u] = t
+            toks.append(f"O{u}={_hex(t)}")
+        elif k < 5 and u in open_docs:
+            # full-text replacements and small ranged edits near the start of a line
+            if rng.random() < 0.5:
+                t = rng.choice(C20_TEXTS) + ("// v%d\n" % rng.randrange(100))
+                toks.append(f"C{u}=F:{_hex(t)}")
+            else:
+                line = rng.randrange(4)
+                ins = rng.choice(["// c\n", " ", "x", "\n"])
+                toks.append(f"C{u}=R:{line}:0:{line}:0:{_hex(ins)}")
+        elif k < 6:
+            open_docs.pop(u, None)
+            toks.append(f"X{u}")
+        elif k < 9:
+            toks.append(f"P{u}")
+        else:
+            toks.append(rng.choice([f"F{u}", "U"]))
+    return toks
+
+
+def c20_messages(toks, diag):
+    msgs = [lc.request(100000, "initialize", INIT_PARAMS_DIAG if diag else INIT_PARAMS), lc.notification("initialized", {})]
+    for k, t in enumerate(toks):
+        kind = t[0]
+        rest = t[1:]
+        u, _, arg = rest.partition("=")
+        if kind == "U":
+            msgs.append(lc.request(k, "foo/unknown", {}))
+            continue
+        uri = C20_URIS[int(u)]
+        if kind == "O":
+            text = bytes.fromhex(arg).decode() if arg != "-" else ""
+            msgs.append(lc.notification("textDocument/didOpen", {"textDocument": {"uri": uri, "languageId": "spl", "version": 0, "text": text}}))
+        elif kind == "C":
+            changes = []
+            for c in arg.split(","):
+                p = c.split(":")
+                if p[0] == "F":
+                    changes.append({"text": bytes.fromhex(p[1]).decode() if p[1] != "-" else ""})
+                else:
+                    changes.append({"range": {"start": {"line": int(p[1]), "character": int(p[2])}, "end": {"line": int(p[3]), "character": int(p[4])}},
+                                    "text": bytes.fromhex(p[5]).decode() if p[5] != "-" else ""})
+            msgs.append(lc.notification("textDocument/didChange", {"textDocument": {"uri": uri, "version": 1}, "contentChanges": changes}))
+        elif kind == "X":
+            msgs.append(lc.notification("textDocument/didClose", {"textDocument": {"uri": uri}}))
+        elif kind == "P":
+            msgs.append(lc.request(k, "$/verif/text", {"uri": uri}))
+        elif kind == "F":
+            msgs.append(lc.request(k, "textDocument/foldingRange", {"textDocument": {"uri": uri}}))
+    msgs.append(lc.request(100001, "shutdown"))
+    msgs.append(lc.notification("exit"))
+    return msgs
+
+
+def c20_cases(run):
+    import subprocess
+    from common import HARNESS, ENV
+    rng = random.Random(run.seed + 20)
+    thorough = run.tier == "thorough"
+    n_hist = 24 if thorough else 12
+    size = 1500 if thorough else 300
+    violations, pairs = [], []
+    hists = [(c20_history(rng, size if i % 4 else 60), i % 2 == 0) for i in range(n_hist)]
+    # sequential in-process reference
+    seq_in = "\n".join(f"SEQ {1 if d else 0} " + " ".join(t) for t, d in hists) + "\n"
+    p = subprocess.run([HARNESS, "run"], input=seq_in, stdout=subprocess.PIPE, stderr=subprocess.DEVNULL, text=True, env=ENV, timeout=3000)
+    seq_out = p.stdout.split("\n")[:len(hists)]
+    skipped = 0
+
+    def one(h):
+        toks, d = h
+        data = b"".join(lc.frame(m) for m in c20_messages(toks, d))
+        return lc.run_session([data], timeout=120, workers=None)  # default multi-threaded runtime (all cores)
+
+    with ThreadPoolExecutor(max_workers=4) as ex:
+        results = list(ex.map(one, hists))
+    n_msgs = 0
+    for (toks, d), ref, r in zip(hists, seq_out, results):
+        line = f"{1 if d else 0} " + " ".join(toks)
+        n_msgs += len(toks)
+        if ref.startswith("PANIC") or not ref.startswith("["):
+            skipped += 1   # the sequential reference itself dies in AnalyzedSource::update: C01/C02 finding, not C20
+            continue
+        events = json.loads(ref)
+        if r["timed_out"] or r["problems"] or r["rc"] != 0:
+            violations.append(("binary", "SPECNETTEXT " + line, f"rc={r['rc']} timed_out={r['timed_out']} problems={r['problems']} stderr={r['stderr'][-300:]}", "", "session under load failed (deadlock/crash)"))
+            continue
+        got = []
+        ids = []
+        for m in r["messages"]:
+            if "method" in m:
+                if m["method"] == "textDocument/publishDiagnostics":
+                    got.append({"d": [m["params"]["uri"], m["params"]["diagnostics"]]})
+            elif m.get("id") not in (100000, 100001):
+                unknown = "error" in m
+                got.append({"r": m.get("result"), "id": m["id"], "unknown": unknown})
+                ids.append(m["id"])
+        want_ids = [k for k, t in enumerate(toks) if t[0] in "PFU"]
+        if ids != want_ids:
+            violations.append(("binary", "SPECNETTEXT " + line, f"response ids {ids[:40]}", f"{want_ids[:40]}", "responses missing, duplicated or out of request order"))
+            continue
+        # doc-related projection (everything but the unknown-method responses) must equal the sequential run
+        got_doc = [{k: v for k, v in e.items() if k in ("r", "d")} for e in got if not e.get("unknown")]
+        if got_doc != events:
+            idx = next((i for i, (a, b) in enumerate(zip(got_doc, events)) if a != b), min(len(got_doc), len(events)))
+            violations.append(("binary", "SPECNETTEXT " + line, json.dumps(got_doc[idx:idx + 2])[:600], json.dumps(events[idx:idx + 2])[:600],
+                               f"pipelined run differs from the sequential execution at doc-related event {idx}"))
+            continue
+        if not d and any("d" in e for e in got):
+            violations.append(("binary", "SPECNETTEXT " + line, "diagnostics published", "", "diagnostics published to a client that did not announce support"))
+            continue
+        probes = " ".join(f"R{e['id']}=" + ("null" if e["r"] is None else _hex(e["r"])) for e in got if "id" in e and toks[e["id"]][0] == "P")
+        pairs.append(("SPECNETTEXT " + line, probes))
+        pairs.append((f"JUDGENETSCHED {1 if d else 0} {6 if not thorough else 12} " + " ".join(toks[:80]), "ok"))
+    run.stats_extra["c20_histories"] = len(hists)
+    run.stats_extra["c20_messages"] = n_msgs
+    run.stats_extra["c20_skipped_reference_panics"] = skipped
+    return pairs, violations
